@@ -118,6 +118,8 @@ m("c13-memo-layout", "mutant", "C13", MS,
   ["            gsiz = getattr(self, anam)\n", "        index.append(0)  # add a (nested) group index level"],
   ["            gsiz = _GSIZ_MEMO.get((self.identity, anam), None) or getattr(self, anam)\n", "        if not isinstance(anam, int) and self.identity[:2] == \"10\":\n            _GSIZ_MEMO[(self.identity, anam)] = gsiz\n        index.append(0)  # add a (nested) group index level"])
 m("c13-failed-parse-dirty", "mutant", "C13", MS, "        except Exception as err:  # pragma: no cover\n            raise RTCMTypeError(", "        except Exception as err:  # pragma: no cover\n            RTCM_DATA_FIELDS.setdefault(\"_errs\", []).append(anam)\n            raise RTCMTypeError(")
+m("c13-locked-memo", "refactor", "C13", MS, "    def _get_dict(self) -> dict:", "    def _get_dict(self) -> dict:\n        with _MEMO_LOCK:\n            _MEMO_SEEN.add(self.identity)\n            _MEMO_SEEN.discard(None)\n        return self._get_dict2()\n\n    def _get_dict2(self) -> dict:")
+m("c13-lock-order-deadlock", "mutant", "C13", MS, "    def _get_dict(self) -> dict:", "    def _get_dict(self) -> dict:\n        first, second = (_MEMO_LOCK, _MEMO_LOCK2) if self._labelmsm == 2 else (_MEMO_LOCK2, _MEMO_LOCK)\n        with first:\n            _MEMO_SEEN.add(self.identity)\n            with second:\n                _MEMO_SEEN.discard(None)\n        return self._get_dict2()\n\n    def _get_dict2(self) -> dict:")
 m("c13-memo-getdict", "refactor", "C13", MS, "    def _get_dict(self) -> dict:", "    def _get_dict(self) -> dict:\n        _MEMO_SEEN.add(self.identity)\n        return self._get_dict2()\n\n    def _get_dict2(self) -> dict:")
 
 
@@ -134,7 +136,7 @@ def run(mid, kind, props, file, old, new, runs, tier, only_props):
                 return [(mid, kind, "-", f"PATTERN-COUNT={s.count(o_)}")]
             s = s.replace(o_, n_)
         if file.endswith("rtcmmessage.py"):
-            s = s.replace('BOOL = "B"', 'BOOL = "B"\n_SHARED_INDEX = []\n_GSIZ_MEMO = {}\n_MEMO_SEEN = set()\n_LABELMSM = 1')
+            s = s.replace('BOOL = "B"', 'import threading\n\nBOOL = "B"\n_SHARED_INDEX = []\n_GSIZ_MEMO = {}\n_MEMO_SEEN = set()\n_LABELMSM = 1\n_MEMO_LOCK = threading.Lock()\n_MEMO_LOCK2 = threading.Lock()')
         open(path, "w").write(s)
         out = []
         for p in props:
